@@ -38,3 +38,7 @@ package maincmd
 // one rule per line and in order.
 //@ func maincmd.ClientRun
 //@   at[C13] (*sender.Transfer).Do: assert [sending-client-applies-its-own-rules] arg5 != nil && len(arg5.Filters) == len(opts.filterRules)
+
+// ---------------------------------------------------------------- C09: a deleting receiver knows the user's rules
+//@ func maincmd.ClientRun
+//@   at[C09] (*receiver.Transfer).ReceiveFileList: assert [deleting-receiver-has-the-users-rules] opts.delete_mode != 0 ==> arg0.Filter != nil && typeis(arg0.Filter, "*sender.filterRuleList") && len(asptr(arg0.Filter, "*sender.filterRuleList").Filters) == len(opts.filterRules)
